@@ -9,7 +9,7 @@ package shmipc
 //      so that a Close can fall between its checks and its insertion into the stream table.
 //        new <p> | close <k> | cleanup <k> | opencheck <k> | openinsert <k>
 // (ii) scenarios on real session pairs over a socketpair (no model, spec monitors only):
-//        e2e <file|memfd> <streams> <killpoint> <peerdeath|closeclient|closeserver>
+//        e2e <file|memfd> <streams> <killpoint> <[cb]peerdeath|[cb]closeclient|[cb]closeserver>
 
 import (
 	"fmt"
@@ -208,11 +208,40 @@ type c14CB struct {
 	mu      sync.Mutex
 	streams []*Stream
 	ch      chan *Stream
+	cbMode  bool // streams are switched to callback mode; OnData blocks in a read for more than was sent
+	cbs     []*c14SCB
 }
+
+// c14SCB: stream callbacks whose OnData waits (no deadline) for more bytes than the peer ever sends
+type c14SCB struct {
+	st            *Stream
+	entered       chan struct{}
+	readDone      chan error
+	local, remote int32
+}
+
+func (b *c14SCB) OnData(reader BufferReader) {
+	select {
+	case b.entered <- struct{}{}:
+	default:
+	}
+	_, err := reader.ReadBytes(1 << 10)
+	select {
+	case b.readDone <- err:
+	default:
+	}
+}
+func (b *c14SCB) OnLocalClose()  { atomic.AddInt32(&b.local, 1) }
+func (b *c14SCB) OnRemoteClose() { atomic.AddInt32(&b.remote, 1) }
 
 func (l *c14CB) OnNewStream(s *Stream) {
 	l.mu.Lock()
 	l.streams = append(l.streams, s)
+	if l.cbMode {
+		b := &c14SCB{st: s, entered: make(chan struct{}, 1), readDone: make(chan error, 1)}
+		l.cbs = append(l.cbs, b)
+		s.SetCallbacks(b)
+	}
 	l.mu.Unlock()
 	select {
 	case l.ch <- s:
@@ -222,6 +251,10 @@ func (l *c14CB) OnNewStream(s *Stream) {
 func (l *c14CB) OnShutdown(reason string) {}
 
 func c14Pair(prefix string, mt MemMapType) (*Session, *Session, *c14CB, error) {
+	return c14PairCB(prefix, mt, false)
+}
+
+func c14PairCB(prefix string, mt MemMapType, cbMode bool) (*Session, *Session, *c14CB, error) {
 	fds, err := syscall.Socketpair(syscall.AF_UNIX, syscall.SOCK_STREAM|syscall.SOCK_CLOEXEC, 0)
 	if err != nil {
 		return nil, nil, nil, err
@@ -231,7 +264,7 @@ func c14Pair(prefix string, mt MemMapType) (*Session, *Session, *c14CB, error) {
 	cb, _ := net.FileConn(f1)
 	f0.Close()
 	f1.Close()
-	lcb := &c14CB{ch: make(chan *Stream, 64)}
+	lcb := &c14CB{ch: make(chan *Stream, 64), cbMode: cbMode}
 	scfg := c12Config(prefix+"_srv", mt)
 	scfg.listenCallback = lcb
 	chC := c12Start(c12Config(prefix, mt), ca, true)
@@ -275,11 +308,20 @@ func (c *c14Run) e2e(f []string) string {
 	if nst < 1 || nst > 4 {
 		return "bad-op"
 	}
+	// cb<mode>: the server's streams are in callback mode and every OnData is blocked in a read when the event comes
+	cbMode := strings.HasPrefix(mode, "cb")
+	if cbMode {
+		mode = mode[2:]
+		if kill < nst {
+			kill = nst
+		}
+		c.tags["callback-blocked-in-read"] = true
+	}
 	n := atomic.AddUint64(&c14Seq, 1)
 	prefix := fmt.Sprintf("/dev/shm/verif_c14e_%d_%d", os.Getpid(), n)
 	runtime.GC()
 	fd0, maps0 := c12CountFds(), c12CountMaps(prefix)
-	cli, srv, lcb, err := c14Pair(prefix, mt)
+	cli, srv, lcb, err := c14PairCB(prefix, mt, cbMode)
 	if err != nil {
 		c.setFail("e2e-setup", err.Error())
 		return "setup-failed"
@@ -329,13 +371,33 @@ func (c *c14Run) e2e(f []string) string {
 		}))
 	}
 	time.Sleep(5 * time.Millisecond)
+	var cbs []*c14SCB
+	if cbMode {
+		lcb.mu.Lock()
+		cbs = append(cbs, lcb.cbs...)
+		lcb.mu.Unlock()
+		for _, b := range cbs {
+			select {
+			case <-b.entered:
+			case <-time.After(2 * time.Second):
+				c.setFail("e2e-setup", "OnData was not called for a stream that received data")
+			}
+		}
+		time.Sleep(5 * time.Millisecond)
+	}
 	// the event
 	t0 := time.Now()
 	survivor := cli
 	switch mode {
 	case "peerdeath":
 		// the server process dies: the kernel closes its end of the connection; nothing of its Close runs
-		syscall.Shutdown(srv.connFd, syscall.SHUT_RDWR)
+		if cbMode {
+			// (callback variant: the client dies, the server with its blocked callbacks survives)
+			syscall.Shutdown(cli.connFd, syscall.SHUT_RDWR)
+			survivor = srv
+		} else {
+			syscall.Shutdown(srv.connFd, syscall.SHUT_RDWR)
+		}
 		c.tags["peer-death"] = true
 	case "closeclient":
 		cli.Close()
@@ -370,6 +432,34 @@ func (c *c14Run) e2e(f []string) string {
 			}
 		case <-time.After(2 * time.Second):
 			c.setFail("pending-call-hangs", fmt.Sprintf("%s: %s is still blocked %v after the event", mode, p.name, time.Since(t0)))
+		}
+	}
+	if cbMode {
+		// S (C14): a read pending inside a data callback fails too, the stream gets its close callback, and the event
+		// loop (shared by every session of the process) is not held up by it
+		for i, b := range cbs {
+			select {
+			case err := <-b.readDone:
+				if err == nil {
+					c.setFail("pending-call-succeeds", fmt.Sprintf("%s: the read inside OnData of server stream %d returned nil although no data could arrive", mode, i))
+				}
+			case <-time.After(3 * time.Second):
+				c.setFail("callback-read-hangs", fmt.Sprintf("%s: the read pending inside OnData of server stream %d is still blocked %v after the session died", mode, i, time.Since(t0)))
+				b.st.safeCloseNotify() // release it by hand: the process-wide event loop would stay stuck for every later case
+			}
+		}
+		ran := make(chan struct{})
+		srv.dispatcher.post(func() { close(ran) })
+		select {
+		case <-ran:
+		case <-time.After(4 * time.Second):
+			c.setFail("event-loop-stuck", fmt.Sprintf("%s: work posted to the event loop has not run 4 s after the session died", mode))
+		}
+		for i, b := range cbs {
+			ok := c19WaitFor(3*time.Second, func() bool { return atomic.LoadInt32(&b.local)+atomic.LoadInt32(&b.remote) >= 1 })
+			if !ok {
+				c.setFail("no-close-callback", fmt.Sprintf("%s: server stream %d (callback mode) got no close callback within 3 s of the session's death", mode, i))
+			}
 		}
 	}
 	// S (C14): later calls fail with an error (no panic, no hang)
@@ -487,6 +577,9 @@ func c14Gen(r *rand.Rand, tier string, idx int) []string {
 	if idx%10 == 9 {
 		mt := []string{"file", "memfd"}[r.Intn(2)]
 		mode := []string{"peerdeath", "closeclient", "closeserver"}[r.Intn(3)]
+		if r.Intn(3) == 0 {
+			mode = "cb" + mode
+		}
 		return []string{fmt.Sprintf("e2e %s %d %d %s", mt, 1+r.Intn(3), r.Intn(7), mode)}
 	}
 	var ops []string
